@@ -660,13 +660,27 @@ class Facts:
             if not isinstance(self._baseline_arg, dict) else self._baseline_arg)
         self.inlined = {}
 
+    def is_new_helper(self, npath):
+        """a function that does not exist on the reference tree and is not a rename: rules see it inlined in its
+        callers, so it is never judged on its own (who-may-write, anchors)"""
+        if self.baseline is None:
+            return False
+        root = npath
+        while '::{closure#' in root:
+            root = root[:root.rindex('::{closure#')]
+        if root in self.baseline:
+            return False
+        import inliner
+        if getattr(self, '_renamed', None) is None:
+            self._renamed = inliner.renamed_helpers(self, norm)
+        return root not in self._renamed
+
     def bodies_raw(self, path):
         if path not in self._bodies:
             ds = [json.loads(l) for l in self._raw[path]]
-            if self.baseline is not None:
+            if self._baseline_arg is not False:
                 import inliner
-                ds = [inliner.inline_new_helpers(self, d, norm) if d['kind'] in ('Fn', 'AssocFn', 'Closure') else d
-                      for d in ds]
+                ds = [inliner.prepare_body(self, d, norm) for d in ds]
                 for d in ds:
                     if d.get('inlined'):
                         self.inlined[norm(d['path'])] = d['inlined']
